@@ -115,6 +115,7 @@ Lemma LI_set_writer r c : ListInv c -> ListInv (set_writer r c). Proof. li_ext. 
 Lemma LI_set_att r c : ListInv c -> ListInv (set_att r c). Proof. li_ext. Qed.
 Lemma LI_set_res r c : ListInv c -> ListInv (set_res r c). Proof. li_ext. Qed.
 Lemma LI_set_closers r c : ListInv c -> ListInv (set_closers r c). Proof. li_ext. Qed.
+Lemma LI_set_detached r c : ListInv c -> ListInv (set_detached r c). Proof. li_ext. Qed.
 Lemma LI_set_reg r c : ListInv c -> ListInv (set_reg r c). Proof. li_ext. Qed.
 Lemma LI_set_ty r c : ListInv c -> ListInv (set_ty r c). Proof. li_ext. Qed.
 Lemma LI_bump_delivered c : ListInv c -> ListInv (bump_delivered c). Proof. li_ext. Qed.
@@ -124,7 +125,7 @@ Ltac li_peel :=
   repeat first
     [ assumption
     | apply LI_report | apply LI_set_reader | apply LI_set_pc | apply LI_set_writer | apply LI_set_att
-    | apply LI_set_res | apply LI_set_closers | apply LI_set_reg | apply LI_set_ty | apply LI_bump_delivered
+    | apply LI_set_res | apply LI_set_closers | apply LI_set_detached | apply LI_set_reg | apply LI_set_ty | apply LI_bump_delivered
     | apply LI_bump_sent ].
 
 Lemma LI_finish_close c : ListInv c -> ListInv (finish_close c).
